@@ -192,6 +192,58 @@ pub(crate) fn check_include_cycles(
     walk(tera, tpl_parents, start, &mut stack, &mut visited)
 }
 
+/// Looks for a block that can end up rendering itself in the block lineage of one template:
+/// rendering `lineage[name][level]` renders `lineage[nested][0]` for every block nested in that
+/// chunk, and `lineage[name][level + 1]` if the chunk calls `super()`.
+/// Returns the name of a block found on such a cycle.
+pub(crate) fn find_block_cycle(lineage: &HashMap<String, Vec<Chunk>>) -> Option<String> {
+    type Node<'a> = (&'a str, usize);
+    fn walk<'a>(
+        lineage: &'a HashMap<String, Vec<Chunk>>,
+        current: Node<'a>,
+        stack: &mut Vec<Node<'a>>,
+        visited: &mut HashSet<Node<'a>>,
+    ) -> Option<String> {
+        let chunks = &lineage[current.0];
+        let chunk = &chunks[current.1];
+        let mut next: Vec<Node<'a>> = chunk
+            .rendered_blocks()
+            .filter(|b| lineage.get(*b).is_some_and(|l| !l.is_empty()))
+            .map(|b| (b, 0))
+            .collect();
+        if chunk.is_calling_function("super") && current.1 + 1 < chunks.len() {
+            next.push((current.0, current.1 + 1));
+        }
+        for node in next {
+            if stack.contains(&node) {
+                return Some(node.0.to_string());
+            }
+            if visited.contains(&node) {
+                continue;
+            }
+            stack.push(node);
+            if let Some(found) = walk(lineage, node, stack, visited) {
+                return Some(found);
+            }
+            stack.pop();
+            visited.insert(node);
+        }
+        None
+    }
+
+    let mut names: Vec<&String> = lineage.keys().collect();
+    names.sort();
+    for name in names {
+        for level in 0..lineage[name].len() {
+            let start = (name.as_str(), level);
+            if let Some(found) = walk(lineage, start, &mut vec![start], &mut HashSet::new()) {
+                return Some(found);
+            }
+        }
+    }
+    None
+}
+
 /// Recursive fn that finds all the parents and put them in an ordered Vec from closest to first parent
 /// parent template
 pub(crate) fn find_parents(
